@@ -75,6 +75,7 @@ add(Contract(
     body_after_assign='unpack_code', env=True,
     prefix_checks=[
         ('guard', 'if not self.generate_for_pack and (not self.generate_for_unpack):\n    return'),
+        ('const-string', 'import_code'),      # the module header is the same for every declaration (it is not hashed)
         ('flag-string', 'self.generate_for_pack', 'pack_code', 'def pack_impl('),
         ('flag-string', 'self.generate_for_unpack', 'unpack_code', 'def unpack_impl('),
     ],
